@@ -68,6 +68,7 @@ class SimFile:
         self._pos = 0
         self._wpos = 0  # offset of the next write syscall (in-place overwrite when the file was not truncated)
         self._append = "a" in mode
+        self._raw = False  # unbuffered binary file (buffering=0): one write() = one system call, may be short
         self._fd = None
         self.closed = False
         self.encoding = "utf-8"
@@ -112,6 +113,8 @@ class SimFile:
         if not self._writable:
             raise io.UnsupportedOperation("not writable")
         self.fs._user_write(self)
+        if self._raw:
+            return self.fs._write_syscall(self, bytes(s))
         if self._binary:
             data = bytes(s)
         else:
@@ -355,8 +358,20 @@ class SimFS:
             self._fire("enospc")
             self._end_op(k, "write", fobj.name, {"len": len(chunk), "persisted": n, "err": "ENOSPC"})
             raise OSError(errno.ENOSPC, "No space left on device (simulated)")
+        if f is not None and f.get("op") == k and f["kind"] == "short":
+            # the kernel takes only part of the buffer and reports the count, no error: a raw file hands
+            # the count to its caller, a buffered file writes the remainder with another system call
+            n = max(0, min(int(f["n"]), len(chunk)))
+            self._persist(fobj, chunk[:n])
+            self._fire("short")
+            self.fault = None
+            self._end_op(k, "write", fobj.name, {"len": len(chunk), "persisted": n, "short": True, "raw": fobj._raw})
+            if fobj._raw or n == len(chunk):
+                return n
+            return n + self._write_syscall(fobj, chunk[n:])
         self._persist(fobj, chunk)
-        self._end_op(k, "write", fobj.name, {"len": len(chunk), "persisted": len(chunk)})
+        self._end_op(k, "write", fobj.name, {"len": len(chunk), "persisted": len(chunk), "raw": fobj._raw})
+        return len(chunk)
 
     @staticmethod
     def _persist(fobj, data: bytes):
@@ -440,13 +455,23 @@ class SimFS:
     def os_write(self, fd, data):
         obj = self._fds[fd]
         self._user_write(obj)
-        self._write_syscall(obj, bytes(data))
-        return len(data)
+        return self._raw_syscall(obj, bytes(data))
+
+    def _raw_syscall(self, obj, data):
+        """write(2) / sendfile(2) on a descriptor: the count is the caller's business."""
+        was = obj._raw
+        obj._raw = True
+        try:
+            return self._write_syscall(obj, data)
+        finally:
+            obj._raw = was
 
     # ---- API seen by the code under test
     def open(self, path, mode="r", *args, **kwargs):
         path = os.fspath(path)
         m = mode.replace("t", "")
+        buffering = args[0] if args else kwargs.get("buffering", -1)
+        raw = buffering == 0 and "b" in m
         if "x" in m and path in self.files:
             raise FileExistsError(errno.EEXIST, "File exists", path)
         if "w" in m or "x" in m:
@@ -457,6 +482,7 @@ class SimFS:
             else:
                 del ino.data[:]
             fobj = SimFile(self, path, ino, m)
+            fobj._raw = raw
             self._open_files.add(fobj)
             self._end_op(k, "open_w", path)
             return fobj
@@ -466,6 +492,7 @@ class SimFS:
             if ino is None:
                 ino = self.files[path] = Inode()
             fobj = SimFile(self, path, ino, m)
+            fobj._raw = raw
             self._open_files.add(fobj)
             self._end_op(k, "open_a", path)
             return fobj
@@ -510,8 +537,7 @@ class SimFS:
         if not data:
             return 0
         self._user_write(dst)
-        self._write_syscall(dst, data)
-        return len(data)
+        return self._raw_syscall(dst, data)
 
     def os_fstat(self, fd):
         obj = self._fds[fd]
